@@ -41,6 +41,10 @@ type Result struct {
 	Bye      bool
 }
 
+// DefaultTimeout is how long a client waits for the next line of an answer (a check that re-runs a behaviour after a
+// time-out on an overloaded machine raises it for the second attempt).
+var DefaultTimeout = 20 * time.Second
+
 type Client struct {
 	c        net.Conn
 	r        *bufio.Reader
@@ -54,7 +58,7 @@ func Dial(addr string) (*Client, error) {
 	if err != nil {
 		return nil, err
 	}
-	cl := &Client{c: c, r: bufio.NewReaderSize(c, 1<<16), Timeout: 20 * time.Second}
+	cl := &Client{c: c, r: bufio.NewReaderSize(c, 1<<16), Timeout: DefaultTimeout}
 	l, err := cl.readLine()
 	if err != nil {
 		return nil, err
